@@ -631,7 +631,9 @@ package bt
 // ---- paying to an address string (C15): accepted exactly when the string is a valid address; the new output carries the canonical script ----
 //@ func bt.(*Tx).AddP2PKHOutputFromAddress
 //@   bytes token
-//@   ensures[C15.output_from_address] (and (= (= err nil) (spec.addr_ok (b58dec addr))) (=> (= err nil) (and (= (len (. tx Outputs)) (+ (old (len (. tx Outputs))) 1)) (not (nil? (at (. tx Outputs) (old (len (. tx Outputs)))))) (= (. (at (. tx Outputs) (old (len (. tx Outputs)))) Satoshis) satoshis) (= (bytes (. (at (. tx Outputs) (old (len (. tx Outputs)))) LockingScript)) (spec.p2pkh_script (bsub (b58dec addr) 1 21))))))
+//@   ensures[C15.output_from_address] (and (=> (spec.addr_ok (b58dec addr)) (= err nil)) (=> (= err nil) (and (= (len (. tx Outputs)) (+ (old (len (. tx Outputs))) 1)) (not (nil? (at (. tx Outputs) (old (len (. tx Outputs)))))) (= (. (at (. tx Outputs) (old (len (. tx Outputs)))) Satoshis) satoshis) (= (bytes (. (at (. tx Outputs) (old (len (. tx Outputs)))) LockingScript)) (spec.p2pkh_script (bsub (b58dec addr) 1 21))))))
+//@   check[C15.output_from_address_only_valid] (=> (= err nil) (spec.addr_ok (b58dec addr)))
 //@ func bt.(*Tx).PayToAddress
 //@   bytes token
-//@   ensures[C15.pay_to_address] (and (= (= err nil) (spec.addr_ok (b58dec addr))) (=> (= err nil) (and (= (len (. tx Outputs)) (+ (old (len (. tx Outputs))) 1)) (not (nil? (at (. tx Outputs) (old (len (. tx Outputs)))))) (= (. (at (. tx Outputs) (old (len (. tx Outputs)))) Satoshis) satoshis) (= (bytes (. (at (. tx Outputs) (old (len (. tx Outputs)))) LockingScript)) (spec.p2pkh_script (bsub (b58dec addr) 1 21))))))
+//@   ensures[C15.pay_to_address] (and (=> (spec.addr_ok (b58dec addr)) (= err nil)) (=> (= err nil) (and (= (len (. tx Outputs)) (+ (old (len (. tx Outputs))) 1)) (not (nil? (at (. tx Outputs) (old (len (. tx Outputs)))))) (= (. (at (. tx Outputs) (old (len (. tx Outputs)))) Satoshis) satoshis) (= (bytes (. (at (. tx Outputs) (old (len (. tx Outputs)))) LockingScript)) (spec.p2pkh_script (bsub (b58dec addr) 1 21))))))
+//@   check[C15.pay_to_address_only_valid] (=> (= err nil) (spec.addr_ok (b58dec addr)))
